@@ -47,6 +47,19 @@ NESTED_SAME_NAME = ("from typing import List\nfrom nada_dsl import *\n\n\ndef na
                     "        def fn(acc: SecretInteger, x: SecretInteger) -> SecretInteger:\n            return acc + x\n"
                     "        return row.reduce(fn, zero)\n    out = rows.map(fn)\n"
                     "    outs: List[Output] = [Output(out, 'o', p)]\n    return outs\n")
+# a very deep expression (a few thousand operations chained through one accumulator): nothing in the compiler may depend
+# on the interpreter's recursion limit
+DEEP = ("from typing import List\nfrom nada_dsl import *\n\n\ndef nada_main():\n    p = Party(name='P0')\n"
+        "    xs = [SecretInteger(Input(name='x' + str(i), party=p)) for i in range(8)]\n    acc = xs[0]\n"
+        "    for i in range(3000):\n        acc = acc + xs[i % 8] if i % 3 else acc * xs[i % 8]\n"
+        "    outs: List[Output] = [Output(acc, 'o', p)]\n    return outs\n")
+# non-ASCII characters in comments, doc strings and names of inputs: the CLI must print its one JSON object whatever the
+# encoding of its standard output
+NON_ASCII = ("from typing import List\nfrom nada_dsl import *\n\n\n# \u2192 \u5408\u8a08 \u2014 \u03b1\ndef nada_main():\n    p = Party(name='P0')\n"
+             "    a = SecretInteger(Input(name='a', party=p, doc='montant \u2192 \u5408\u8a08 \u2014 \u03b1'))\n"
+             "    b = SecretInteger(Input(name='b', party=p, doc='caf\u00e9'))\n"
+             "    outs: List[Output] = [Output(a * b, 'o', p)]\n    return outs\n")
+HEAVY = ("deep-expression", "non-ascii")
 NAMES = ["prog.py", "my-prog.py", "my.prog.py", "json.py", "os.py", "typing.py", "nada_dsl.py", "base64.py", "temp_program.py",
          "traceback.py", "nada_dsl_prog.py", "inspect.py"]
 
@@ -89,6 +102,8 @@ def run(ctx):
     texts.update(FAILING)
     texts["multi-file"] = MULTI
     texts["nested-functions-same-name"] = NESTED_SAME_NAME
+    texts["deep-expression"] = DEEP
+    texts["non-ascii"] = NON_ASCII
     seeds = ["0", "1", "12345"] if quick else ["0", "1", "2", "12345", "random"]
     names = NAMES[:7] if quick else NAMES
     seeds = seeds + (["7", "99"] if quick else ["7", "99", "31337"])
@@ -100,32 +115,40 @@ def run(ctx):
         open(os.path.join(d, "api_string.py"), "w").write(API_STRING)
         for pn, text in texts.items():
             b64 = base64.b64encode(text.encode()).decode()
-            for name in names:
+            for name in (names[:1] if pn in HEAVY else names):
                 pd = os.path.join(d, pn, name.replace(".", "_"))
                 os.makedirs(pd, exist_ok=True)
                 path = os.path.join(pd, name)
-                open(path, "w").write(text)
+                open(path, "w", encoding="utf-8").write(text)
                 if pn == "multi-file":
                     for hn, ht in HELPERS.items():
                         open(os.path.join(pd, hn), "w").write(ht)
-                for seed in seeds:
+                for seed in (seeds[:2] if pn in HEAVY else seeds):
                     for tm in ("", "1"):
                         if quick and tm == "1" and name not in ("prog.py", "json.py"):
                             continue
                         jobs.append((pn, "cli-path", name, seed, tm, ["-m", "nada_dsl.compile", path]))
                         jobs.append((pn, "api-script", name, seed, tm, [os.path.join(d, "api_script.py"), path]))
+                        if pn == "non-ascii":
+                            for enc in ("ascii", "cp1252", "latin-1"):
+                                jobs.append((pn, "cli-path@" + enc, name, seed, tm, ["-m", "nada_dsl.compile", path]))
             if pn == "multi-file":
                 continue          # helper modules cannot be found from a base64 string
-            for seed in seeds:
+            for seed in (seeds[:2] if pn in HEAVY else seeds):
                 for tm in ("", "1"):
                     jobs.append((pn, "cli-s", "-", seed, tm, ["-m", "nada_dsl.compile", "-s", b64]))
                     jobs.append((pn, "api-string", "-", seed, tm, [os.path.join(d, "api_string.py"), b64]))
+                    if pn == "non-ascii":
+                        for enc in ("ascii", "cp1252"):
+                            jobs.append((pn, "cli-s@" + enc, "-", seed, tm, ["-m", "nada_dsl.compile", "-s", b64]))
 
         def one(job):
             pn, entry, name, seed, tm, args = job
             env = vlib.impl_env({"PYTHONHASHSEED": seed})
             if tm:
                 env["NADA_TIMER"] = "1"
+            if "@" in entry:
+                env["PYTHONIOENCODING"] = entry.split("@")[1]     # the encoding of the child's standard output
             cwd = tempfile.mkdtemp(prefix="cwd_", dir=os.path.join(d, "cwd"))
             rc, out, err, dt = vlib.run([vlib.PY] + args, 120, cwd=cwd, env=env)
             return out
@@ -145,6 +168,11 @@ def run(ctx):
         ref[pn] = ("ok", strip_loc(json.loads(o.strip()[3:]))) if o.startswith("OK ") else ("exc", o.strip())
     cli_cells = []
     problems = []
+    # programs whose nada_main returns its outputs normally: the reference itself must be a MIR
+    for pn in texts:
+        if (pn.startswith("accepted-") or pn in ("multi-file", "nested-functions-same-name", "deep-expression", "non-ascii")) and ref[pn][0] != "ok":
+            problems.append(((pn, "api-string" if pn != "multi-file" else "api-script", "-", seeds[0], ""),
+                             f"a program whose nada_main returns outputs normally is not compiled: {ref[pn][1][:160]}"))
     for (pn, entry, name, seed, tm), out in by.items():
         kind, val = ref[pn]
         lines = [l for l in out.splitlines() if l.strip()]
@@ -157,7 +185,7 @@ def run(ctx):
                     parsed.append(None)
             kinds = ["LSuccess" if (p and p.get("result") == "Success") else "LFailure" if (p and p.get("result") == "Failure" and "reason" in p) else "?"
                      for p in parsed]
-            argv = ["compile.py", "PATH"] if entry == "cli-path" else ["compile.py", "-s", "B64"]
+            argv = ["compile.py", "PATH"] if entry.startswith("cli-path") else ["compile.py", "-s", "B64"]
             cli_cells.append((argv, kind, kinds, (pn, entry, name, seed, tm)))
             mir = None
             if kinds == ["LSuccess"]:
